@@ -46,4 +46,25 @@ def unframe (head : List Char) (stream : List Nat) : Option (List Nat × List Na
     | none => none
   else none
 
+/-! a connection: messages one after another on one byte stream -/
+
+/-- the bytes of one message as they travel: the header characters, then the payload -/
+def wireBytes (payload : List Nat) : List Nat := (header payload.length).map Char.toNat ++ payload
+
+/-- `ReadWireMessage` on a byte stream: `io.ReadFull` of 6 bytes, then of as many bytes as they say -/
+def readMessage (stream : List Nat) : Option (List Nat × List Nat) :=
+  if stream.length < 6 then none else unframe ((stream.take 6).map Char.ofNat) (stream.drop 6)
+
+def writeAll : List (List Nat) → List Nat
+  | [] => []
+  | p :: ps => wireBytes p ++ writeAll ps
+
+/-- read `n` messages; the stream must be used up -/
+def readMessages : Nat → List Nat → Option (List (List Nat))
+  | 0, s => if s.isEmpty then some [] else none
+  | n + 1, s =>
+    match readMessage s with
+    | some (p, rest) => (readMessages n rest).map (fun ps => p :: ps)
+    | none => none
+
 end SlipVerif.Wire6
